@@ -1,15 +1,25 @@
 #!/venv/bin/python
-"""usage: tools/show_canon.py mod.Qual.name [grep]  - print the canonical form of a function as the rules see it"""
-import sys, ast
-sys.path.insert(0, "/verif")
+"""usage: [PATCH=file.diff] tools/show_canon.py mod.Qual.name [grep]  - print the canonical form of a function as the rules
+see it (optionally on a scratch copy of /repo with PATCH applied)"""
+import ast, os, subprocess, sys
+sys.path.insert(0, "/verif"); sys.path.insert(0, "/verif/tools")
 from asv.loader import Program
-p = Program()
-fi = p.func(sys.argv[1])
-src = ast.unparse(fi.node)
-if len(sys.argv) > 2:
-    lines = src.splitlines()
-    for i, l in enumerate(lines):
-        if sys.argv[2] in l:
-            print("\n".join(lines[max(0, i - 3): i + 12])); print("-----")
-else:
-    print(src)
+wt = None
+if os.environ.get("PATCH"):
+    import seed_matrix as sm
+    wt, applied, note = sm.scratch_tree(os.environ["PATCH"])
+    print("# patch", applied, note if applied == "FAILED" else "")
+try:
+    p = Program(wt) if wt else Program()
+    fi = p.func(sys.argv[1])
+    src = ast.unparse(fi.node)
+    if len(sys.argv) > 2:
+        lines = src.splitlines()
+        for i, l in enumerate(lines):
+            if sys.argv[2] in l:
+                print("\n".join(lines[max(0, i - 3): i + 12])); print("-----")
+    else:
+        print(src)
+finally:
+    if wt:
+        subprocess.run(["rm", "-rf", wt])
